@@ -4,6 +4,7 @@ package c15
 import (
 	"fmt"
 	"os"
+	"strconv"
 	"testing"
 
 	"github.com/biogo/biogo/align/pals"
@@ -76,9 +77,14 @@ type palsCase struct {
 	// Family: the query carries a second, exact copy of the (mutated) repeat further along: a repeat
 	// family. Both query copies must be recovered against the one target copy (ordinary comparison only).
 	Family bool `json:"family,omitempty"`
-	SeedT uint64 `json:"seed_t"`
-	SeedQ uint64 `json:"seed_q"`
-	SeedM uint64 `json:"seed_m"` // mutation positions
+	// BlockIndel != 0: one indel of |BlockIndel| = 2..5 consecutive letters (up to pals.MaxIGap; negative:
+	// the query copy lacks them, positive: it has extra ones) at BlockAt permille of the repeat, instead of
+	// as many of the substitutions
+	BlockIndel int    `json:"block_indel,omitempty"`
+	BlockAt    int    `json:"block_at_permille,omitempty"`
+	SeedT      uint64 `json:"seed_t"`
+	SeedQ      uint64 `json:"seed_q"`
+	SeedM      uint64 `json:"seed_m"` // mutation positions
 }
 
 type lcg uint64
@@ -136,8 +142,8 @@ type built struct {
 	// inverted repeat in a self comparison: the same pair of copies seen from the other copy (the
 	// complement search may report either image; altTl == 0: none)
 	altT0, altTl, altQ0, altQl int
-	diffs          int
-	minID          float64
+	diffs                      int
+	minID                      float64
 }
 
 func (c palsCase) build() built {
@@ -183,6 +189,13 @@ func (c palsCase) build() built {
 			nd = 0
 		}
 	}
+	blockN := c.BlockIndel
+	if blockN < 0 {
+		blockN = -blockN
+	}
+	if nd -= blockN; nd < 0 {
+		nd = 0
+	}
 	g := lcg(c.SeedM)
 	copyU := append([]byte(nil), unit...)
 	used := map[int]bool{}
@@ -225,6 +238,19 @@ func (c palsCase) build() built {
 			copyU = append(copyU[:p], append([]byte{"ACGT"[g.next()&3]}, copyU[p:]...)...)
 			b.diffs++
 		}
+	}
+	if blockN > 0 {
+		p := L * c.BlockAt / 1000
+		if c.BlockIndel < 0 {
+			copyU = append(copyU[:p:p], copyU[p+blockN:]...)
+		} else {
+			var extra []byte
+			for k := 0; k < blockN; k++ {
+				extra = append(extra, "ACGT"[g.next()&3])
+			}
+			copyU = append(copyU[:p:p], append(extra, copyU[p:]...)...)
+		}
+		b.diffs += blockN
 	}
 	// a few single-base indels
 	for k := 0; k < indels; k++ {
@@ -421,6 +447,22 @@ func check(c palsCase) *vlib.Failure {
 					found2 = true
 				}
 			}
+			if c.BlockIndel != 0 {
+				// an indel of several consecutive letters costs the extension 3 per letter against a
+				// budget of MaxIGap x 3 = 15 for any local drop: MaxIGap letters are the most it can
+				// bridge at all, and fewer only while no substitution lies close by. Such repeats are not
+				// "comfortably" recoverable: recall is counted, not asserted (measured rates on the
+				// unchanged tree in DESIGN.md, 8.5 round 6); every hit still has to be sound.
+				n := c.BlockIndel
+				if n < 0 {
+					n = -n
+				}
+				vlib.Count(fmt.Sprintf("repeats-with-one-indel-of-%d-letters-run", n), 1)
+				if !found || !found2 {
+					vlib.Count(fmt.Sprintf("repeats-with-one-indel-of-%d-letters-missed", n), 1)
+				}
+				continue
+			}
 			if !found {
 				return vlib.Failf("repeat-not-found", "%s: no hit of Align(%v) overlaps 60%% of the planted copy in both sequences (k=%d; %d hits: %v)", desc, comp, p.FilterParams.WordSize, len(hits), clip(hits))
 			}
@@ -515,6 +557,26 @@ func gen(t *rapid.T) palsCase {
 		c.AtThr = rapid.IntRange(1, 4).Draw(t, "at-threshold")
 		c.Indels = 0
 	}
+	if c.NearMin == 0 && c.NetDel == 0 && c.AtThr == 0 && !c.LowID && rapid.IntRange(0, 7).Draw(t, "block-indel") == 3 {
+		c.BlockIndel = rapid.IntRange(2, 5).Draw(t, "block-indel-len")
+		if rapid.Bool().Draw(t, "block-deletion") {
+			c.BlockIndel = -c.BlockIndel
+		}
+		c.BlockAt = rapid.IntRange(300, 700).Draw(t, "block-at")
+		if rapid.Bool().Draw(t, "block-just-past-the-middle") {
+			c.BlockAt = rapid.IntRange(505, 595).Draw(t, "block-at-mid")
+		}
+		c.Indels = 0
+	}
+	if os.Getenv("VERIF_C15_FORCE_BLOCK") != "" {
+		c.NearMin, c.NetDel, c.AtThr, c.LowID, c.Indels = 0, 0, 0, false, 0
+		if c.MinIDPct < 85 {
+			c.MinIDPct = 85
+		}
+		n, _ := strconv.Atoi(os.Getenv("VERIF_C15_FORCE_BLOCK"))
+		c.BlockIndel = -n + 2*n*int(c.SeedM&1)
+		c.BlockAt = 505 + int(c.SeedM>>3)%90
+	}
 	c.Refused = rapid.IntRange(0, 5).Draw(t, "refused-optimise") == 2
 	if rapid.IntRange(0, 5).Draw(t, "aligner-used-before") == 3 {
 		c.PriorMinHit = rapid.IntRange(100, 400).Draw(t, "prior-min-hit")
@@ -540,6 +602,9 @@ func classes(c palsCase) []string {
 		l = append(l, "reverse-strand")
 	default:
 		l = append(l, "forward")
+	}
+	if c.BlockIndel != 0 {
+		l = append(l, "one-indel-of-2-to-5-letters")
 	}
 	if c.Indels > 0 {
 		l = append(l, "indels")
